@@ -350,7 +350,18 @@ bool can_parse(std::string_view input, const std::string_view* base_input) {
   // of either side cannot push the final href past max_length.
   const size_t combined =
       input.size() + (base_input == nullptr ? 0 : base_input->size());
-  const bool size_safe = combined <= static_cast<size_t>(max_length) / 3;
+  // The 3x bound only covers percent-encoding. IDNA can expand a non-ASCII
+  // host much more (U+00BC alone becomes "xn--14-c6t"), so inputs with
+  // non-ASCII bytes always take the full parse below.
+  const auto is_ascii = [](std::string_view s) noexcept {
+    for (const char c : s) {
+      if (static_cast<unsigned char>(c) >= 0x80) return false;
+    }
+    return true;
+  };
+  const bool size_safe =
+      combined <= static_cast<size_t>(max_length) / 3 && is_ascii(input) &&
+      (base_input == nullptr || is_ascii(*base_input));
 
   if (size_safe) {
     // Validation-only: no buffer build, host still fully checked.
